@@ -13,12 +13,12 @@ G = "runtime monitoring, Engine G: "
 T = "runtime monitoring, Engine T: "
 CHECKS = {
  "C01": ("sched+gen", S+"start/end stamps from one atomic clock inside harness job bodies, checked after quiescence against the scenario's dependency lists, with seeded perturbation at verif hook points, plus an online shadow scheduler fed by the loop's hook events (a job is handed to a worker once, only when every dependency has a result); " + G + "stub call log vs. the abstract program's dependencies (providers, predicates, element calls of End hooks) on freshly generated code",
-         "Held on every observed execution: a dependent never started before its dependency ended ok, no job/function ran twice; scheduler scenarios (DAGs with duplicate deps, late enqueue, one job with more than 65536 unfinished dependencies, both modes, N=1..64) and generated flows/parallels (also two directives per file, nested and simultaneous executions, values of unnamed struct/slice/func/interface types, aliases, and same-named types of two same-named packages).",
+         "Held on every observed execution: a dependent never started before its dependency ended ok, no job/function ran twice; scheduler scenarios (DAGs with duplicate deps, late enqueue, dependency lists that share a backing array, one job with more than 65536 unfinished dependencies, both modes, N=1..64) and generated flows/parallels (also two directives per file, nested and simultaneous executions, values of unnamed struct/slice/func/interface types, aliases, and same-named types of two same-named packages).",
          "Trusted: harness bodies/stubs and their clock; the Go runtime. Interleavings reached = OS scheduling + hook perturbation + stub delays.", "3/C01"),
- "C02": ("gen", G+"provenance-hash tokens through freshly generated flow code, compared call by call (arguments, multiplicity, Results) with a reference interpreter written from the statement; each abstract flow printed in 3 listing/option orders, a third of the multi-result flows with two cff.Results options; 4/8/32 simultaneous executions of the same directive from as many goroutines, each judged on its own",
+ "C02": ("gen", G+"provenance-hash tokens through freshly generated flow code, compared call by call (arguments, multiplicity, Results) with a reference interpreter written from the statement; each abstract flow printed in 3 listing/option orders, a third of the multi-result flows with two cff.Results options; Params values that are sensitive to the order in which they are evaluated; 4/8/32 simultaneous executions of the same directive from as many goroutines, each judged on its own",
          "Held on every observed execution of every generated flow (all spellings/value-type kinds of the grammar, concurrency default..64, delays).",
          "Programs outside the generator's grammar are not reached; simultaneous executions only for programs whose functions can all find their execution without a global (ctx parameter, captured handle or a non-zero input token).", "3/C02"),
- "C03": ("sched+gen", S+"exact in-flight counter in job bodies, goroutine census from runtime.Stack while N bodies are held on a gate, N-party barrier after Goexit jobs decided by the stuck-state detector, worker-goroutine starts counted per scheduler at the hook and compared with limit + jobs that killed their goroutine in every scenario (also when jobs hand on the error of a nested scheduler whose job killed its goroutine); " + G + "in-flight counter in stubs vs. the directive's limit",
+ "C03": ("sched+gen", S+"exact in-flight counter in job bodies, goroutine census from runtime.Stack while N bodies are held on a gate, N-party barrier after Goexit jobs decided by the stuck-state detector, deliveries of state reports to one emitter never overlap (an emitter slower than the flush interval), worker-goroutine starts counted per scheduler at the hook and compared with limit + jobs that killed their goroutine in every scenario (also when jobs hand on the error of a nested scheduler whose job killed its goroutine); " + G + "in-flight counter in stubs vs. the directive's limit",
          "In-flight high-water mark <= limit in every execution; scheduler goroutines <= N+2 with up to 10^5 jobs; N-party barrier completes after 0/1/N/3N Goexit jobs.",
          "Census is one sample per wide scenario, made decisive by holding every running body on the gate. Generated level: wide programs (6..25 independent functions, mostly without cff.Concurrency) held until the limit is saturated plus 3 ms.", "3/C03"),
  "C04": ("gen", G+"every execution runs under recover() in a child process whose death is attributed to its last case; returned error inspected with errors.As(*cff.PanicError) and Value compared with the value observed at the panicking stub",
